@@ -28,6 +28,7 @@ func (e ExchangeRegexSchema) catalogExample() ([]byte, error) {
 	if e.example == nil {
 		return e.Example()
 	}
+	verifYield("exchange-regex-example")
 	e.example.once.Do(func() {
 		e.example.value, e.example.err = e.Example()
 	})
